@@ -42,6 +42,31 @@ var plan = []target{
 	{"portalwire/common.go", nil},
 }
 
+const cfgSrc = `package verifcfg
+
+import (
+	"github.com/urfave/cli/v2"
+	"github.com/zen-eth/shisui/portal"
+)
+
+var _ = verifMain
+
+// ConfigFromArgs parses a command line with the command's own flag set and returns what
+// getPortalConfig makes of it (the node is not built).
+func ConfigFromArgs(args []string) (cfg *portal.Config, err error) {
+	a := *app
+	a.Before, a.After = nil, nil
+	a.Action = func(ctx *cli.Context) error {
+		cfg, err = getPortalConfig(ctx)
+		return nil
+	}
+	if rerr := a.Run(append([]string{"shisui"}, args...)); rerr != nil {
+		return nil, rerr
+	}
+	return cfg, err
+}
+`
+
 const hookSrc = `// Package verifhook is a virtual package supplied by the verification overlay.
 package verifhook
 
@@ -400,6 +425,24 @@ func main() {
 		content[t.File] = res
 		fmt.Printf("%s: %d yields, %d lock hooks (cumulative)\n", t.File, n, locks)
 	}
+	// virtual package verifcfg: the command's own configuration code (package main cannot be imported)
+	// under another package name, with one exported entry that runs the real flag parsing and
+	// getPortalConfig for a command line. Nothing is written into the repository.
+	for _, f := range []string{"cmd/shisui/config.go", "cmd/shisui/main.go"} {
+		src, err := load(f)
+		if err != nil {
+			fmt.Fprintln(os.Stderr, err)
+			os.Exit(2)
+		}
+		if bytes.Count(src, []byte("\npackage main\n")) != 1 && !bytes.HasPrefix(src, []byte("package main\n")) {
+			fmt.Fprintln(os.Stderr, "verifcfg: no package clause found in", f)
+			os.Exit(2)
+		}
+		src = bytes.Replace(src, []byte("package main\n"), []byte("package verifcfg\n"), 1)
+		src = bytes.Replace(src, []byte("\nfunc main() {"), []byte("\nfunc verifMain() {"), 1)
+		content["verifcfg/"+filepath.Base(f)] = src
+	}
+	content["verifcfg/verif_export.go"] = []byte(cfgSrc)
 	replace := map[string]string{}
 	for rel, b := range content {
 		p := filepath.Join(*out, strings.ReplaceAll(rel, "/", "__"))
